@@ -110,3 +110,13 @@ Proof.
     + inv H. exists input. split; [reflexivity|constructor].
     + inv H. exists input. split; [reflexivity|constructor].
 Qed.
+
+(* nesting to depth 64 (the property's quantifier) fits the limit the source has now *)
+From Icv Require Import Codec.JsRoundtrip Facts.Facts_c20.
+Theorem js_depth64_fits (js_flt : Type) (v : js_value js_flt) :
+  js_depth _ v <= 64 -> js_fits _ f_js_max_depth 0 v.
+Proof.
+  intros H. unfold js_fits. destruct f_js_max_depth as [m|] eqn:E; [|exact I].
+  assert (64 < m) as Hm. { pose proof (eq_refl : match f_js_max_depth with Some m => 64 <? m | None => true end = true) as C. rewrite E in C. lia. }
+  lia.
+Qed.
